@@ -117,6 +117,25 @@ func runProperty(e *Engine, prop string, cfg SolverCfg) *checkResult {
 			res.trusted[t] = true
 		}
 	}
+	// mechanical side conditions: declared-immutable fields are only written by their declared writers
+	bad := e.checkImmutableFields()
+	for _, fcl := range e.cs.Fields {
+		if fcl.Class != "immutable" {
+			continue
+		}
+		k := fcl.Type + "." + fcl.Field
+		o := &Obligation{Name: "immutable:" + k + "#1", Fn: "immutable", Kind: "immutable", Props: []string{prop}, Goal: "true", Expect: "unsat", Result: "unsat", Solver: "ssa-scan",
+			Text: "field " + k + " is stored to only by " + fcl.By + " (or while the object is still unpublished)"}
+		for _, b := range bad {
+			if strings.Contains(b, "immutable field "+k+" ") {
+				o.Result = "sat"
+				o.Output = b
+				o.Text += " — VIOLATED: " + b
+			}
+		}
+		res.obls = append(res.obls, o)
+		res.trusted["fields declared immutable keep their value across calls into unknown code (writers checked mechanically): "+k] = true
+	}
 	lobls, lerrs, ltrusted := e.lemmaObligations(prop)
 	res.obls = append(res.obls, lobls...)
 	res.bindErrs = append(res.bindErrs, lerrs...)
@@ -218,11 +237,15 @@ func report(root, prop, tier string, seed int, res *checkResult, base *Baseline,
 	var vacuous []*Obligation
 	var knownHits []string
 	nProof, nDischarged := 0, 0
+	deadPaths := 0
 	for _, o := range res.obls {
 		generated[o.Name] = true
-		if o.Kind == "vacuity" {
-			if o.Result == "unsat" {
+		if o.Kind == "vacuity" || o.Kind == "cover" {
+			if o.Result == "unsat" && o.Kind == "vacuity" {
 				vacuous = append(vacuous, o)
+			}
+			if o.Result == "unsat" && o.Kind == "cover" {
+				deadPaths++
 			}
 			continue
 		}
@@ -309,6 +332,9 @@ func report(root, prop, tier string, seed int, res *checkResult, base *Baseline,
 	for _, o := range undecided {
 		fmt.Printf("UNDECIDED obligation=%s result=%s (%s) — not in the baseline, no replayable counterexample\n", o.Name, o.Result, o.Text)
 	}
+	if deadPaths > 0 {
+		fmt.Printf("note: %d return paths are unreachable under the contracts' preconditions (dead under contract)\n", deadPaths)
+	}
 	for _, o := range vacuous {
 		fmt.Printf("UNDECIDED vacuity=%s — assumptions contradict at this point; obligations after it carry no weight\n", o.Name)
 	}
@@ -374,7 +400,7 @@ func writeEvidenceFull(root, prop, tier string, seed int, res *checkResult, nPro
 	var maxName string
 	nvac, nvacSat := 0, 0
 	for _, o := range res.obls {
-		if o.Kind == "vacuity" {
+		if o.Kind == "vacuity" || o.Kind == "cover" {
 			nvac++
 			if o.Result == "sat" {
 				nvacSat++
@@ -392,7 +418,7 @@ func writeEvidenceFull(root, prop, tier string, seed int, res *checkResult, nPro
 	var samples []interface{}
 	seenKind := map[string]bool{}
 	for _, o := range res.obls {
-		if o.Kind == "vacuity" || seenKind[o.Kind] || len(samples) >= 8 {
+		if (o.Kind == "vacuity" || o.Kind == "cover") || seenKind[o.Kind] || len(samples) >= 8 {
 			continue
 		}
 		seenKind[o.Kind] = true
@@ -482,7 +508,7 @@ func cmdBaseline(args []string) {
 			res := runProperty(e, p, SolverCfg{Timeout: 10 * time.Second, Workers: runtime.NumCPU(), Seed: s})
 			total = 0
 			for _, o := range res.obls {
-				if o.Kind == "vacuity" {
+				if o.Kind == "vacuity" || o.Kind == "cover" {
 					continue
 				}
 				total++
